@@ -1693,7 +1693,12 @@ class Interp:
         def _all(it, a, k):
             x = a[0]
             if isinstance(x, SSeq):
-                raise Unsupported("all() over a symbolic sequence")
+                probe = it.truth_term(x.elem(cur().fresh_index(x.n, "all")))
+                if probe is True:
+                    return True
+                if probe is False:
+                    return T.eq(x.n, 0)
+                raise Unsupported("all() over a symbolic sequence of symbolic conditions")
             r = True
             for v in it.iterate(x):
                 t = it.truth_term(v)
